@@ -368,7 +368,11 @@ impl FileDesc {
 
     pub fn to_file_xml(&self, now: SystemTime) -> fdtinstance::File {
         let oti_attributes = match self.oti.fec_encoding_id {
-            oti::FECEncodingID::RaptorQ => Some(self.oti.get_attributes()), // for RaptorQ we need to add OTI for each object
+            // for RaptorQ and Raptor the number of source blocks (Z) depends on the object:
+            // the OTI is added to each file, with the Z computed for this object
+            oti::FECEncodingID::RaptorQ | oti::FECEncodingID::Raptor => {
+                Some(self.oti.get_attributes())
+            }
             _ => self
                 .object
                 .config
